@@ -248,7 +248,10 @@ def invariant_loop(eng, stmt, label, spec, view, s, iter_val=None, guard=None):
     for inv in invs:
         it.assume(spec_bool(eng, inv, spec_state(it), inv_bindings(i)))
     out = []
-    eng.frame_stack.append((it.heap.alloc, mod_refs, label))
+    # what the loop itself has allocated (in this or an earlier iteration) may be written without being in the loop's
+    # frame: the havoc above says nothing about objects at or above the allocation counter of the loop entry, so whatever is
+    # to be known about them at the next iteration has to come from the invariant anyway
+    eng.frame_stack.append((loop_alloc, mod_refs, label))
     try:
         if is_for:
             starts = bind_target(eng, stmt.target, elem_at(eng, it, view, i), it)
